@@ -15,7 +15,7 @@ P, A, O2, O are structural and live in qv/util_c06.py.
 import math
 
 from . import facts
-from .core import Src, Anchor, find, walk, show, path_of
+from .core import Src, Anchor, find, walk, show, path_of, is_call_to
 from .c06_rules import Interp, Env, AV, C, I, D, S, N, U, INF, TABLE, periodic, _rs
 
 LEVEL = "other"
@@ -320,6 +320,80 @@ def rule_m(rep, src):
     return sites
 
 
+def o3(rep, src):
+    """DataType::flatten_optional: List(Optional(T)) -> Optional(List(T)).  The visitor carries a flag "an Optional was found below"."""
+    from .core import find, walk, show, path_of, pat_binds
+
+    rep.rule(
+        "O3",
+        "FlattenOptionalVisitor: the flag 'an Optional was found below' returned by every method is the disjunction (||) of the flags of ALL its children (true for `optional`, false only for `primitive`); "
+        "flatten_optional wraps the flattened type in Optional exactly when the flag is set",
+        floor=8,
+        necessary="function::Optional::super_image relies on flatten_optional to make the image of a list / struct of nullable values nullable: a dropped flag declares a NULL-able result non-nullable",
+    )
+    fns = {f.name: f for f in src.find_fns(file="data_type/mod.rs", self_ty="FlattenOptionalVisitor") if (f.trait or "").startswith("Visitor")}
+    if len(fns) < 8:
+        rep.undecidable("O3", "FlattenOptionalVisitor", "impl Visitor<(bool, DataType)> for FlattenOptionalVisitor not found (methods: %s)" % sorted(fns), "src/data_type/mod.rs")
+        return
+
+    def leaves(e):
+        if e["k"] == "binary" and e["op"] in ("||", "&&", "|", "&"):
+            a, oa = leaves(e["lhs"])
+            b, ob = leaves(e["rhs"])
+            return a + b, oa + ob + [e["op"]]
+        return [e], []
+
+    for nm, f in sorted(fns.items()):
+        key = "FlattenOptionalVisitor::" + nm
+        child = [p["pat"]["name"] for p in f.params if not p.get("self") and p["pat"]["k"] == "ident" and "(bool, DataType)" in p["ty"].replace(" ,", ",")]
+        is_vec = [p["pat"]["name"] for p in f.params if not p.get("self") and p["pat"]["k"] == "ident" and p["ty"].replace(" ", "").startswith("Vec<")]
+        st = f.body["stmts"]
+        tail = st[-1]["e"] if st and st[-1]["k"] == "expr" and not st[-1].get("semi") else None
+        flag_e, avail = None, []
+        if tail is not None and tail["k"] == "tuple" and len(tail["elems"]) == 2:
+            flag_e = tail["elems"][0]
+            avail = ["%s.0" % c for c in child if c not in is_vec]
+        elif tail is not None and tail["k"] == "mcall" and tail["m"] == "fold" and len(tail["args"]) == 2 and tail["args"][1]["k"] == "closure":
+            cl = tail["args"][1]
+            body = cl["body"]
+            while body["k"] == "block" and len(body["stmts"]) == 1 and body["stmts"][0]["k"] == "expr":
+                body = body["stmts"][0]["e"]
+            init = tail["args"][0]
+            if body["k"] == "tuple" and len(body["elems"]) == 2 and init["k"] == "tuple" and len(cl["params"]) == 2:
+                flag_e = body["elems"][0]
+                acc = pat_binds(cl["params"][0])
+                # the flag of the element: first component of the innermost 2-tuple pattern
+                inner = [p for p in walk(cl["params"][1]) if p["k"] == "tuple" and len(p["elems"]) == 2 and p["elems"][0]["k"] == "ident" and p["elems"][1]["k"] == "ident"]
+                el = inner[-1]["elems"][0]["name"] if inner else None
+                avail = (["%s.0" % acc[0]] if acc else []) + ([el] if el else [])
+                if not (init["elems"][0]["k"] == "lit" and init["elems"][0]["v"] is False):
+                    rep.violation("O3", key, "the fold over the children does not start from the flag `false`", f.where())
+        if flag_e is None:
+            rep.undecidable("O3", key, "cannot read the flag component of the result: %s" % show(f.body, 120), f.where())
+            continue
+        ls, ops = leaves(flag_e)
+        shown = [show(x, 30).replace(" ", "") for x in ls]
+        rep.instance("O3", key, {"method": nm, "children_flags": avail, "flag": show(flag_e, 80)})
+        if nm == "optional":
+            if shown != ["true"]:
+                rep.violation("O3", key, "`optional` must report that an Optional was found (flag true), found `%s`" % show(flag_e, 60), f.where())
+            continue
+        if not avail:
+            if shown != ["false"]:
+                rep.violation("O3", key, "a node without children reports the flag `%s`" % show(flag_e, 60), f.where())
+            continue
+        missing = [a for a in avail if a not in shown]
+        if missing or any(o in ("&&", "&") for o in ops):
+            rep.violation("O3", key, "the flag `%s` does not take the disjunction of all children flags (%s)" % (show(flag_e, 60), ", ".join(avail)), f.where())
+    # flatten_optional itself
+    g = src.one_fn(name="flatten_optional", file="data_type/mod.rs", self_ty="DataType")
+    ifs = [x for x in find(g.body, "if")]
+    ok = len(ifs) == 1 and any(is_call_to(c, "DataType::optional") for c in find(ifs[0]["then"], "call")) and not any(is_call_to(c, "DataType::optional") for c in find(ifs[0]["else"] or {}, "call"))
+    rep.instance("O3", "DataType::flatten_optional", {"body": show(g.body, 140)})
+    if not ok:
+        rep.violation("O3", "DataType::flatten_optional", "flatten_optional does not wrap the flattened type in Optional exactly when the flag is set", g.where())
+
+
 def run(rep):
     from . import util_c06 as u
 
@@ -336,6 +410,10 @@ def run(rep):
     u.rule_a(rep, src)
     u.rule_o2(rep, src)
     u.rule_o(rep, src)
+    o3(rep, src)
+    from .util_enum import n1
+
+    n1(rep, src)
     rep.assume("closures are pure functions of their parameters (no interior mutability): an expression that mentions no parameter is a constant")
     rep.assume("f64::MIN/MAX and i64::MIN/MAX are the ends of the abstract line: saturation/clamping at them is monotone; NaN and rounding are out of scope")
     rep.assume("division at a divisor range touching 0 is reported (pole); the panic it also causes is C18's")
